@@ -338,6 +338,30 @@ theorem bitsDown_mod (k n : Nat) : bitsDown (k % 2 ^ n) n = bitsDown k n := by
       ← Nat.toNat_testBit, ← Nat.toNat_testBit, Nat.testBit_mod_two_pow]
     simp [show m < n by omega]
 
+/-- the square-and-multiply `fpow` is modular exponentiation, so the RFC's "z2^(p − 2)" is what
+    the model computes (that this is the inverse of z2 needs Fermat for p — not proved) -/
+theorem fpow_eq (b e : Nat) : fpow b e = b ^ e % p := by
+  induction e using Nat.strongRecOn with
+  | _ e ih =>
+    cases e with
+    | zero => simp [fpow]
+    | succ n =>
+      rw [fpow]
+      rw [ih ((n+1)/2) (by omega)]
+      have hsq : fsq (b ^ ((n + 1) / 2) % p) = b ^ (2 * ((n + 1) / 2)) % p := by
+        unfold fsq
+        rw [← Nat.mul_mod, ← Nat.pow_add]; congr 2; omega
+      rw [hsq]
+      by_cases h : (n + 1) % 2 = 1
+      · simp only [h, ↓reduceIte]
+        unfold fmul
+        rw [Nat.mod_mul_mod, ← Nat.pow_succ]
+        congr 2; omega
+      · simp only [h, ↓reduceIte]
+        congr 2; omega
+
+theorem finv_eq (z : Nat) : finv z = z ^ (p - 2) % p := fpow_eq z (p - 2)
+
 /-! ## what is not proved -/
 
 /-- Full statement, part 1 (functional): the real X25519 is the RFC function. Over the model this
